@@ -1,6 +1,10 @@
 import CJ.Drv.Loop
-/-! Driver for C11 (stub until the models are written). -/
+import CJ.Drv.Codec
+import CJ.Drv.Ingress
+/-! Driver for C11: the byte-level parsers (codec model) and the entry-point models. -/
 open CJ.Drv
 
 def main : IO Unit := runDriver fun
+  | "codec" :: args => Codec.handle args
+  | "ingress" :: args => Ingress.handle args
   | _ => none
